@@ -199,7 +199,10 @@ CLAIMED = {
              "The proof covers the HTTP/2 connection level only: byte parsing (h11, h2, hpack, wsproto) is not modelled, and 'malformed "
              "HTTP/1 is answered with the hinted 4xx and closed' / 'HTTP/2 violations end with GOAWAY' are established by the "
              "end-to-end oracles (sampling), hence partial there. F1, F2, F3, F4, F39 fixed (9f2fda3, 7522217, cf41a6c, 36b3339, "
-             "612d5c8). Modelled not verified: protocol/h2.py (_handle_events, _window_updated, _priority_updated, _create_stream, "
+             "612d5c8), F52 fixed (a4e02d6: non-ASCII :method, reset after the client's GOAWAY). The receive-side credit (DATA on a "
+             "finished stream is acknowledged) and the reader's robustness on refused streams are covered by oracles only. Open known "
+             "finding F14 (application queue full at closure; on HTTP/2 it parks the reader) is reported as KNOWN-FINDING. "
+             "Modelled not verified: protocol/h2.py (_handle_events, _window_updated, _priority_updated, _create_stream, "
              "_close_stream, _send_data).",
         technique="Coq proof (inductive invariant: every registered buffer is in the priority tree; frame lemmas) + in-Coq differential correspondence + parser-oracle fuzzing",
     ),
@@ -236,6 +239,9 @@ CLAIMED = {
              "transport-level half of the property (writer.drain / send_all high-water marks) is the runtime's and is only observed "
              "end to end on the rig's paused transport: partial there. 'Returns promptly' is proved as 'the event the sender waits on is "
              "set' (not_stuck); that the scheduler then runs the sender is the runtime's fairness. F6, F7/F22 fixed (28cda5a, 435ce46). "
+             "Open known finding F49 (WebSocket over HTTP/2: the reader itself is parked in StreamBuffer.push with the echo of a "
+             "client's close frame or a pong when the client grants no credit - the LTS has no label for a push by the reader) is "
+             "reported as KNOWN-FINDING. "
              "Modelled not verified: protocol/h2.py (StreamBuffer, send_task, _send_data, stream_send, _window_updated, _close_stream).",
         technique="Coq proof (inductive invariants over all label sequences of an LTS) + in-Coq step-by-step differential correspondence",
     ),
